@@ -71,7 +71,12 @@ def check_exact_refusal(ctx, A, config, RULE_NAME):
             for f in strict:
                 capt, need = f[1], f[2]
                 P = prover.Prover(J, e.state.facts)
-                if need[0] == 'app' and need[1] == 'round_up' and need[2] == app('size', L) and need[3] in (arena.MIN, app('align', L)):
+                def ok_need(nd, depth=0):
+                    # the amount the request needs: round_up(size, MIN_ALIGN | align), possibly chosen per branch and merged
+                    if nd[0] == 'phi' and depth < 3:
+                        return all(ok_need(x, depth + 1) for _, x in nd[2])
+                    return nd[0] == 'app' and nd[1] == 'round_up' and nd[2] == app('size', L) and nd[3] in (arena.MIN, app('align', L))
+                if ok_need(need):
                     base = capt[2] if capt[0] == 'app' and capt[1] == 'wsub' else None
                     low = capt[3] if capt[0] == 'app' and capt[1] == 'wsub' else None
                     if low == data and (base == fin or (base is not None and base[0] == 'app' and base[1] == 'round_down' and base[2] == fin)):
